@@ -85,7 +85,40 @@ type e2eRecv struct {
 
 func (r *e2eRecv) name() string { return "FrameV1.Unseal/" + r.mt.String() }
 
+// damaged delivers a copy of frame s that does not authenticate: one bit of its MAC, or of its sequence field, is
+// flipped on the way. Whatever it claims, it must be refused and must leave no trace in the receiver.
+func (r *e2eRecv) damaged(s uint32, rng *rand.Rand) bool {
+	data := append([]byte(nil), r.frameOf(s)...)
+	off := len(data) - 1 - rng.Intn(16)
+	if rng.Intn(2) == 0 {
+		off = 8 + rng.Intn(8)
+	}
+	data[off] ^= byte(1 << rng.Intn(8))
+	f, err := r.p.bb.ParseFrame(data, nil, 0)
+	if err != nil {
+		return false
+	}
+	return f.Unseal(r.p.sb) == nil
+}
+
 func (r *e2eRecv) deliver(s uint32) bool {
+	buf := append([]byte(nil), r.frameOf(s)...)
+	f, err := r.p.bb.ParseFrame(buf, nil, 0)
+	if err != nil {
+		panic(err)
+	}
+	err = f.Unseal(r.p.sb)
+	if err == nil {
+		want := fmt.Sprintf("payload-%d-of-%s", s, r.mt)
+		if string(f.MessageData()) != want {
+			panic("driver: payload mismatch after successful unseal")
+		}
+	}
+	return err == nil
+}
+
+// frameOf returns the bytes of the frame with sequence number s as the sender sealed it (once).
+func (r *e2eRecv) frameOf(s uint32) []byte {
 	data, ok := r.sealed[s]
 	if !ok {
 		h := &state.EncryptionSessionTestHelper{EncryptionSession: r.p.sa.Encryption()}
@@ -113,19 +146,7 @@ func (r *e2eRecv) deliver(s uint32) bool {
 		r.sealed[s] = data
 		f.ReturnToPool()
 	}
-	buf := append([]byte(nil), data...)
-	f, err := r.p.bb.ParseFrame(buf, nil, 0)
-	if err != nil {
-		panic(err)
-	}
-	err = f.Unseal(r.p.sb)
-	if err == nil {
-		want := fmt.Sprintf("payload-%d-of-%s", s, r.mt)
-		if string(f.MessageData()) != want {
-			panic("driver: payload mismatch after successful unseal")
-		}
-	}
-	return err == nil
+	return data
 }
 
 // ownSend lets the RECEIVER seal frames of its own towards the sender (regular and priority class); with wrap the
@@ -174,7 +195,22 @@ type linkRecv struct {
 
 func (r *linkRecv) name() string { return "LinkFrame.Unseal" }
 
+func (r *linkRecv) damaged(s uint32, rng *rand.Rand) bool {
+	data := append([]byte(nil), r.frameOf(s)...)
+	off := len(data) - 1 - rng.Intn(16)
+	if rng.Intn(2) == 0 {
+		off = 4 + rng.Intn(4)
+	}
+	data[off] ^= byte(1 << rng.Intn(8))
+	return peering.LinkFrame(data).Unseal(r.p.lb) == nil
+}
+
 func (r *linkRecv) deliver(s uint32) bool {
+	buf := append([]byte(nil), r.frameOf(s)...)
+	return peering.LinkFrame(buf).Unseal(r.p.lb) == nil
+}
+
+func (r *linkRecv) frameOf(s uint32) []byte {
 	data, ok := r.sealed[s]
 	if !ok {
 		h := &state.EncryptionSessionTestHelper{EncryptionSession: r.p.la}
@@ -192,8 +228,7 @@ func (r *linkRecv) deliver(s uint32) bool {
 		data = buf
 		r.sealed[s] = data
 	}
-	buf := append([]byte(nil), data...)
-	return peering.LinkFrame(buf).Unseal(r.p.lb) == nil
+	return data
 }
 
 // -----------------------------------------------------------------------------
@@ -476,6 +511,18 @@ func run(c *vf.Ctx) {
 				os.ownSend(wrap)
 				events = append(events, map[string]any{"ev": "ownsend", "h": h, "wrap": wrap})
 				c.Distinct(fmt.Sprintf("ownsend|%s|%v", r.name(), wrap))
+			}
+			if dm, ok := r.(interface {
+				damaged(uint32, *rand.Rand) bool
+			}); ok && rng.Intn(12) == 0 {
+				// a copy that does not authenticate arrives first: of this very frame, or of one far ahead
+				ds := s
+				if rng.Intn(2) == 0 {
+					ds = s + uint32(1+rng.Intn(300))
+				}
+				events = append(events, map[string]any{"ev": "forged", "h": h, "s": int(ds), "ok": dm.damaged(ds, rng)})
+				c.Eval(1)
+				c.Distinct(fmt.Sprintf("forged|%s|%v", r.name(), ds == s))
 			}
 			got := r.deliver(s)
 			c.Eval(1)
